@@ -386,8 +386,24 @@ def finding_signature(hist, res):
         stt = o.get("S", "").split()
         if len(stt) >= 2 and ((stt[0] != "c:-" and not stt[0].startswith("c:100,")) or (stt[1] != "d:-" and not stt[1].startswith("d:200,"))):
             return "errpath:global_state-not-START-after:" + (ops[oi + 1].split()[0] if oi + 1 < len(ops) else "?")
-    if probe and probe[0] == "mb" and not crash:
-        return "F40:maxmemory-boundary:permanent-pool"
+    if probe and probe[0] == "mb" and not crash and res.get("fresh") and res.get("ops"):
+        # known (F62): the permanent pool left by earlier calls counts against TJPARAM_MAXMEMORY.  Only a boundary shift that
+        # the permanent-pool difference explains carries that signature; unreturned image-pool bytes (drift) or a larger
+        # shift are different dependences
+        try:
+            def mfield(S, i):
+                return int([p for p in S.split() if p.startswith("m:")][0][2:].split(",")[i])
+            uo, fo = res["ops"][-1], res["fresh"]
+            drift = any(mfield(o["S"], 0) != 0 or mfield(o["S"], 2) != 0 for o in res["ops"] if "S" in o)
+            w = int(probe[1]) if len(probe) > 1 and probe[1] in ("8", "16", "24", "32") else 16
+            row_bytes = (w // 8) * 128                      # one block row of the coefficient array of the grayscale image
+            shift_bytes = abs(int(uo["n"]) - int(fo["n"])) // 8 * row_bytes
+            dperm = abs(mfield(uo["S"], 4) - mfield(fo["S"], 4)) + abs(mfield(uo["S"], 5) - mfield(fo["S"], 5))
+            if not drift and shift_bytes <= dperm + 2 * row_bytes:
+                return "F40:maxmemory-boundary:permanent-pool"
+            return "maxmemory-boundary-unexplained:shift=%dB:permanent-delta=%dB" % (shift_bytes, dperm)
+        except (KeyError, IndexError, ValueError):
+            return "maxmemory-boundary-unexplained"
     if "jdapistd.c" in crash and "read_and_discard_scanlines" in crash and "use-after-free" in crash:
         return "F5:stale-cconvert:skip-scanlines-merged-upsampling"
     # the same defect without a sanitizer: the stale pointer is read and written silently, the pixels may differ
